@@ -78,16 +78,16 @@ CompleteWrite(G, k, opid) ==
 
 \* C03: what the finished operation w (final status st) lets a sequential client expect
 Expect3(G, S2, w, st) ==
-  LET k == w.k old == Get(G.e3, k, [mode |-> "none", val |-> NoVal, dl |-> NoExp]) IN
-  IF ~w.alone THEN With(G.e3, k, [mode |-> "unk", val |-> NoVal, dl |-> NoExp])
-  ELSE CASE w.kind = "del" -> With(G.e3, k, [mode |-> "none", val |-> NoVal, dl |-> NoExp])
+  LET k == w.k old == Get(G.e3, k, [mode |-> "none", val |-> NoVal, dl |-> NoExp, src |-> "none"]) IN
+  IF ~w.alone THEN With(G.e3, k, [mode |-> "unk", val |-> NoVal, dl |-> NoExp, src |-> "none"])
+  ELSE CASE w.kind = "del" -> With(G.e3, k, [mode |-> "none", val |-> NoVal, dl |-> NoExp, src |-> "del"])
          [] st = StAccepted /\ w.inplace ->
-              IF w.v >= 0 THEN With(G.e3, k, [mode |-> "val", val |-> w.v, dl |-> w.dl])
-              ELSE IF old.mode = "val" THEN With(G.e3, k, [old EXCEPT !.dl = w.dl])
-              ELSE With(G.e3, k, [mode |-> "unk", val |-> NoVal, dl |-> NoExp])
-         [] st = StAccepted -> With(G.e3, k, [mode |-> "val", val |-> w.v, dl |-> w.dl])
+              IF w.v >= 0 THEN With(G.e3, k, [mode |-> "val", val |-> w.v, dl |-> w.dl, src |-> "pou"])
+              ELSE IF old.mode = "val" THEN With(G.e3, k, [old EXCEPT !.dl = w.dl, !.src = "pou"])
+              ELSE With(G.e3, k, [mode |-> "unk", val |-> NoVal, dl |-> NoExp, src |-> "none"])
+         [] st = StAccepted -> With(G.e3, k, [mode |-> "val", val |-> w.v, dl |-> w.dl, src |-> w.kind])
          [] st = StRejExists -> G.e3
-         [] OTHER -> With(G.e3, k, [mode |-> "unk", val |-> NoVal, dl |-> NoExp])
+         [] OTHER -> With(G.e3, k, [mode |-> "unk", val |-> NoVal, dl |-> NoExp, src |-> "none"])
 
 FinishWrite(G, S2, opid, st) ==
   IF opid \notin DOMAIN G.ops THEN G
@@ -141,9 +141,9 @@ GhostBegin(G, S, a, op) ==
        [G EXCEPT !.rd = With(@, a, [k \in ks |-> MayReturn(G, k)]),
                  !.obs = With(@, a, <<>>),
                  !.rd3 = With(@, a, [k \in ks |->
-                            LET e == Get(G.e3, k, [mode |-> "none", val |-> NoVal, dl |-> NoExp])
+                            LET e == Get(G.e3, k, [mode |-> "none", val |-> NoVal, dl |-> NoExp, src |-> "none"])
                             IN [ok |-> e.mode = "val" /\ WritesOn(G, k) = {} /\ ~G.pressure,
-                                val |-> e.val, dl |-> e.dl]])]
+                                val |-> e.val, dl |-> e.dl, src |-> e.src]])]
   ELSE G
 
 GhostNext(G, S, a, site, inp, S2, o) ==
@@ -212,10 +212,10 @@ GhostNext(G, S, a, site, inp, S2, o) ==
              THEN LET k == Head(L.keys)
                       pres == Present(S, k)
                       e == IF pres THEN S.store[k] ELSE [val |-> NoVal, id |-> 0, exp |-> NoExp, soft |-> FALSE]
-                      x == Get(Get(G.rd3, a, EmptyFn), k, [ok |-> FALSE, val |-> NoVal, dl |-> NoExp])
+                      x == Get(Get(G.rd3, a, EmptyFn), k, [ok |-> FALSE, val |-> NoVal, dl |-> NoExp, src |-> "none"])
                       due == x.ok /\ ~G.pressure /\ ~S.shut /\ (x.dl = NoExp \/ S.now < x.dl)
                   IN [G11 EXCEPT !.obs[a] = Append(@, [k |-> k, present |-> pres, val |-> e.val, exp |-> e.exp, soft |-> e.soft,
-                                                       now |-> S.now, shut |-> S.shut, due |-> due, want |-> x.val,
+                                                       now |-> S.now, shut |-> S.shut, due |-> due, want |-> x.val, src |-> x.src,
                                                        tainted |-> Get(G.taintK, k, "")])]
              ELSE G11
       \* D11 / D12 / D13: a by-key removal that hits an entry it was not meant for taints the key
@@ -235,10 +235,10 @@ GhostObs(G, S, a) ==
   ELSE LET k == Head(L.keys)
            pres == Present(S, k)
            e == IF pres THEN S.store[k] ELSE [val |-> NoVal, id |-> 0, exp |-> NoExp, soft |-> FALSE]
-           x == Get(Get(G.rd3, a, EmptyFn), k, [ok |-> FALSE, val |-> NoVal, dl |-> NoExp])
+           x == Get(Get(G.rd3, a, EmptyFn), k, [ok |-> FALSE, val |-> NoVal, dl |-> NoExp, src |-> "none"])
            due == x.ok /\ ~G.pressure /\ ~S.shut /\ (x.dl = NoExp \/ S.now < x.dl)
        IN Append(G.obs[a], [k |-> k, present |-> pres, val |-> e.val, exp |-> e.exp, soft |-> e.soft,
-                            now |-> S.now, shut |-> S.shut, due |-> due, want |-> x.val, tainted |-> Get(G.taintK, k, "")])
+                            now |-> S.now, shut |-> S.shut, due |-> due, want |-> x.val, src |-> x.src, tainted |-> Get(G.taintK, k, "")])
 
 -----------------------------------------------------------------------------
 (* C01: 0 <= total weight <= cache weight at every instant while running *)
@@ -287,6 +287,10 @@ J_C03(S, a, site, inp, S2, o, G, G2) ==
            known == {i \in bad : facts[i].tainted # ""}
        IN (IF bad \ known # {}
            THEN <<V("C03", "violation", "", "an accepted key became unreadable (or changed) without memory pressure")>> ELSE <<>>)
+          \o (IF \E i \in bad \ known : facts[i].src = "pou"
+              THEN <<V("C08", "violation", "", "an upsert acknowledged as accepted was silently lost")>> ELSE <<>>)
+          \o (IF \E i \in known : facts[i].src = "pou"
+              THEN <<V("C08", "known", facts[CHOOSE i \in known : facts[i].src = "pou"].tainted, "accepted upsert lost through a recorded store/index race")>> ELSE <<>>)
           \o (IF known # {}
               THEN <<V("C03", "known", facts[CHOOSE i \in known : TRUE].tainted, "accepted key lost through a recorded store/index race")>> ELSE <<>>)
 
@@ -359,6 +363,16 @@ J_C06(S, a, site, inp, S2, o, G, G2) ==
                 \o (IF f[5] >= L.w
                     THEN <<V("C06", "violation", "", "eviction continued although enough space was available")>> ELSE <<>>)
         ELSE <<>>)
+    \* the frequencies the decision uses are the keys' estimated access frequencies (o.truth: what the sketch says)
+    \o (IF \E i \in DOMAIN o.ev : o.ev[i].e \in {"sample", "refill"} /\
+              \E t \in EvTriples(o.ev[i].f, 3) :
+                 \* (entries kept from an earlier step carry the estimate they were sampled with)
+                 /\ (o.ev[i].e = "sample" \/ ~\E x \in L.sample : x.id = t.id)
+                 /\ \E j \in DOMAIN o.truth : o.truth[j][1] = t.id /\ o.truth[j][2] # t.est
+        THEN <<V("C06", "violation", "", "a sampled key is ranked by a frequency that is not its estimated access frequency")>> ELSE <<>>)
+    \o (IF \E i \in DOMAIN o.ev : o.ev[i].e = "sample" /\
+              \E j \in DOMAIN o.truth : o.truth[j][1] = o.ev[i].f[1] /\ o.truth[j][2] # o.ev[i].f[2]
+        THEN <<V("C06", "violation", "", "the incoming key is ranked by a frequency that is not its estimated access frequency")>> ELSE <<>>)
     \* the final decision
     \o (IF site \in {"A_Sample", "K_DelKw", "K_DelUsed"} /\ L.mode \in {"", "evict"} /\ L.cmd.kind \in {"put", "putttl"}
            /\ o.next = "K_AddKw" /\ S2.cfg.max - S2.used < L.w
